@@ -195,7 +195,9 @@ class StmtMixin(object):
                 arrays.store(self, base, t.index, v, line)
             elif isinstance(base, dict):
                 self.note_write(('D', id(base)), 'dict')
-                base[self.hashable(self.eval(t.index))] = v
+                kv = self.eval(t.index)
+                k = self.dict_find(base, kv)
+                base[k if k is not None else self.hashable(kv)] = v
             elif isinstance(base, list):
                 if t.index.k == 'Slice':
                     raise Unsupported('list slice assignment')
